@@ -123,6 +123,22 @@ pub fn unknown_payloads() -> Vec<Val> {
     v.push(Val::Map(T::I8, T::Double, vec![(Val::I8(1), Val::Double(1.0f64.to_bits()))]));
     v.push(Val::Struct(vec![(1, Val::Double(1.0f64.to_bits())), (2, Val::Uuid([7; 16]))]));
     v.push(Val::Bin(val::bin_of_len(300)));
+    // emptiness and zero at every level: a skipper that special-cases "nothing to consume" must
+    // still account for the header / length prefix it has read
+    v.push(Val::Bin(vec![]));
+    v.push(Val::List(T::Bin, vec![Val::Bin(vec![]), Val::Bin(b"x".to_vec()), Val::Bin(vec![])]));
+    v.push(Val::Struct(vec![(1, Val::Bin(vec![])), (2, Val::I32(0)), (3, Val::Bool(false))]));
+    v.push(Val::Map(T::Bin, T::Bin, vec![(Val::Bin(vec![]), Val::Bin(vec![]))]));
+    v.push(Val::List(T::I32, vec![]));
+    v.push(Val::Set(T::I64, vec![]));
+    v.push(Val::List(T::List, vec![Val::List(T::Bin, vec![]), Val::List(T::Bin, vec![Val::Bin(vec![])])]));
+    v.push(Val::Map(T::I32, T::Struct, vec![(Val::I32(0), Val::Struct(vec![]))]));
+    v.push(Val::I8(0));
+    v.push(Val::I16(0));
+    v.push(Val::I32(0));
+    v.push(Val::I64(0));
+    v.push(Val::Double(0));
+    v.push(Val::Uuid([0; 16]));
     v
 }
 
